@@ -90,6 +90,10 @@ func (v *Value) UnmarshalNBT(tagType byte, r nbt.DecoderReader) error {
 		if length < 0 {
 			return errNegativeLength
 		}
+		if t == nbt.TagEnd && length > 0 {
+			// TagEnd elements occupy no bytes: only an empty list may have them
+			return errors.New("nbt: a non-empty list of TagEnd")
+		}
 
 		v.list = v.list[:0]
 		v.elem = t
